@@ -77,6 +77,29 @@ class Roles:
                             return True
         return False
 
+    def estimate_subjects(self, body, e, depth=0):
+        """what the estimate_memory calls inside e measure: {'value'} = the cached value (field `value` of a CacheEntry,
+        field 0 of the async tuple, or a parameter); 'entry' = something else (e.g. the whole entry incl. bookkeeping)"""
+        out = set()
+        if depth > 4:
+            return out
+        for c in calls_in(e):
+            if c[1] == EST and c[2]:
+                root, names = field_path(strip_casts(c[2][0]))
+                names = [x for x in names if not x.startswith('as:')]
+                if names and names[-1] in ('value', '0'):
+                    out.add('value')
+                elif not names and root[0] == 'param' and depth == 0:
+                    out.add('value')
+                else:
+                    out.add('entry')
+            for cid in (c[4] or {}).get('closures', []):
+                r = self.closure_returns(cid)
+                if r:
+                    for x in r[1]:
+                        out |= self.estimate_subjects(r[0], x, depth + 1)
+        return out
+
     def role(self, body, e, depth=0):
         """role name of expression e evaluated in body, or None"""
         e = strip_casts(e)
@@ -130,13 +153,13 @@ class Roles:
                 inner = e[2][0]
                 if inner[0] == 'call' and inner[1] == 'core::option::Option::map' and inner[2] and inner[2][0][0] == 'call' \
                         and inner[2][0][1] in (N.HM + 'get', N.DM + 'get') and self.contains_estimate(body, inner):
-                    return 'NEW_SIZE'
+                    return 'NEW_SIZE' if self.estimate_subjects(body, inner) == {'value'} else 'ENTRY_SIZE'
                 return None
             if cn == 'core::iter::traits::iterator::Iterator::sum':
                 if self.contains_estimate(body, e):
                     src = [c for c in calls_in(e) if c[1] in (N.HM + 'values', N.HM + 'iter', N.DM + 'iter', N.HM + 'values_mut')]
                     if src and is_store_map_ty(parse(_self_ty(src[0]))):
-                        return 'MEM_SUM'
+                        return 'MEM_SUM' if self.estimate_subjects(body, e) == {'value'} else 'ENTRY_SUM'
                 return None
             if cn == LOCALKEY_WITH:
                 rs = self._through_with(e) or []
